@@ -12,7 +12,7 @@ from loki.expression import symbols as sym, ExpressionRetriever, ExpressionDimen
 from loki.ir import (
     Transformer, FindNodes, FindVariables, Import, StatementFunction,
     FindInlineCalls, ExpressionFinder, SubstituteExpressions,
-    VariableDeclaration
+    VariableDeclaration, Conditional
 )
 from loki.subroutine import Subroutine
 from loki.tools import as_tuple, OrderedSet
@@ -184,6 +184,10 @@ def _inline_functions(routine, inline_elementals_only=False, functions=None):
     node_map = {}
     for node, prepend_nodes in node_prepend_map.items():
         node_map[node] = as_tuple(prepend_nodes) + (SubstituteExpressions(call_map[node]).visit(node),)
+    # A one-line IF statement cannot hold the prepended function body: turn it into an IF construct
+    for cond in FindNodes(Conditional).visit(routine.body):
+        if cond.inline and any(node in node_map for node in cond.body):
+            cond._update(inline=False)
     # inline via prepending the relevant functions
     routine.body = Transformer(node_map).visit(routine.body)
     # We need this to ensure that symbols, as well as nested scopes
